@@ -51,3 +51,9 @@ mod tests {
         assert!(matches!(decode_op(0x19), Err(DecodeError::InvalidKind(_))));
     }
 }
+
+#[cfg(noodles_verif)]
+#[doc(hidden)]
+pub fn __verif_decode_op(n: u32) -> Result<Op, DecodeError> {
+    decode_op(n)
+}
